@@ -601,7 +601,10 @@ func c07EngineSelection(c *core.Ctx) {
 		s.Pattern = []string{"||x.com^", "||x.com^", "|https://", "/x\\.com/", "x.c", "https://x.com/",
 			// Patterns that spell out the scheme: the one a host name is asked
 			// about with (hostname requests), without a pipe.
-			"http://x.com^", "http://x.com/", "://x.com", "http://x.c", "ttp://x.com^"}[c.Rng.Intn(11)]
+			"http://x.com^", "http://x.com/", "://x.com", "http://x.c", "ttp://x.com^",
+			// Capital letters at the start of the shortcut (the request spells
+			// them the same way, so $match-case rules match too).
+			"/Ads/Banner", "/Ads/B", "x.com/Ads"}[c.Rng.Intn(14)]
 		if s.MatchCase && s.Pattern == "/x\\.com/" {
 			s.MatchCase = false
 		}
@@ -663,7 +666,7 @@ func c07EngineSelection(c *core.Ctx) {
 			c.Event("engine_selection_lists_with_hash_colliding_rule_texts", 1)
 		}
 	}
-	req := rules.NewRequest("https://x.com/", srcURL, rules.TypeScript)
+	req := rules.NewRequest("https://x.com/Ads/Banner", srcURL, rules.TypeScript)
 	req.DNSType = 1
 	req.ClientIP = gen.ClientNets[0].Prefix.Addr()
 	req.SortedClientTags = []string{"device_pc"}
